@@ -541,3 +541,106 @@ func c18r8(c *Ctx, r *Report) {
 	r.floor("request types that end the session", len(ks), 5)
 	r.floor("conditional stores of looping=false keyed by a request type", nStop, 1)
 }
+
+// c14r10: an integer division or remainder whose divisor is a DIFFERENCE a - b of two run-time quantities
+// panics when the two are equal. The code has two such divisors; each must be excluded from being zero by a
+// comparison of a with b (or of the difference with a constant) on every path to the division (D25:
+// scrollPreviewTo computed x % (numLines - headerLines) behind `scrollable` only, which is also true for a
+// wrapped line that runs past the window: --preview-window cycle,wrap,~1 and a one-line preview divide by
+// zero on the first preview scroll, and the panic leaves the terminal raw).
+func c14r10(c *Ctx, r *Report) {
+	l := c.L
+	r.rule("C14-R10", "A (guard dominates the partial operation)", "P1",
+		"in packages fzf, tui and util, every integer `/` or `%` whose divisor is a subtraction with a non-constant operand is reached only on paths whose condition compares the two operands (or the difference) so that equality is excluded",
+		"integer divide by zero: fzf panics in the event loop and the terminal is left in raw mode on the alternate screen with mouse reporting on")
+	n := 0
+	for _, fn := range l.AllFuncs() {
+		if fn.Blocks == nil || fn.Pkg == nil || !isModulePkg(fn.Pkg.Pkg) {
+			continue
+		}
+		var pc *PathConds
+		k := 0
+		eachInstr(fn, func(in ssa.Instruction) {
+			bo, ok := in.(*ssa.BinOp)
+			if !ok || (bo.Op != token.QUO && bo.Op != token.REM) {
+				return
+			}
+			if bt, ok := bo.Type().Underlying().(*types.Basic); !ok || bt.Info()&types.IsInteger == 0 {
+				return
+			}
+			d, ok := bo.Y.(*ssa.BinOp)
+			if !ok || d.Op != token.SUB {
+				return
+			}
+			if _, isK := d.X.(*ssa.Const); isK {
+				if _, isK2 := d.Y.(*ssa.Const); isK2 {
+					return
+				}
+			}
+			n++
+			k++
+			if pc == nil {
+				pc = pathConds(fn)
+			}
+			excl := func(op token.Token, val bool, swapped bool) bool {
+				// literal (p op q) == val with (p,q) = (a,b), or (b,a) when swapped: does it exclude a == b?
+				switch op {
+				case token.LSS, token.GTR:
+					return val
+				case token.LEQ, token.GEQ:
+					return !val
+				case token.NEQ:
+					return val
+				case token.EQL:
+					return !val
+				}
+				return false
+			}
+			exclConst := func(op token.Token, val bool, kk int64) bool {
+				// literal (D op kk) == val: does it exclude D == 0?
+				holds0 := false
+				switch op {
+				case token.LSS:
+					holds0 = 0 < kk
+				case token.LEQ:
+					holds0 = 0 <= kk
+				case token.GTR:
+					holds0 = 0 > kk
+				case token.GEQ:
+					holds0 = 0 >= kk
+				case token.EQL:
+					holds0 = kk == 0
+				case token.NEQ:
+					holds0 = kk != 0
+				default:
+					return false
+				}
+				return holds0 != val
+			}
+			guarded, reach := pc.Implies(bo.Block(), func(lits []Lit) bool {
+				for _, lt := range lits {
+					cmp, ok := lt.Atom.(*ssa.BinOp)
+					if !ok {
+						continue
+					}
+					if sameExpr(cmp.X, d.X, 0) && sameExpr(cmp.Y, d.Y, 0) && excl(cmp.Op, lt.Val, false) {
+						return true
+					}
+					if sameExpr(cmp.X, d.Y, 0) && sameExpr(cmp.Y, d.X, 0) && excl(cmp.Op, lt.Val, true) {
+						return true
+					}
+					if kk, isK := constIntVal(cmp.Y); isK && sameExpr(cmp.X, d, 0) && exclConst(cmp.Op, lt.Val, kk) {
+						return true
+					}
+				}
+				return false
+			})
+			if !reach {
+				guarded = true
+			}
+			r.check(guarded, fmt.Sprintf("%s:divisor-difference #%d is not zero", relName(fn), k), bo.Pos(), fn,
+				"a comparison on every path excludes a zero divisor", fmt.Sprintf("the divisor %s - %s can be zero here: no comparison of the two operands on the way to this %s", d.X.Name(), d.Y.Name(), bo.Op))
+		})
+	}
+	r.floor("divisions by a difference", n, 2)
+}
